@@ -80,8 +80,8 @@ def run(rep, work, tier, seed):
     # the scope forest with scopes that outlive their ancestors (Metrics.tla, C09's configurations, replayed here too)
     from props.metrics_common import MetricsDriver
     minv = ["TypeOK", "CbAtMostOnce", "CbAfterSubtree", "ExitNeverFails"]
-    for nm, conf in (("metrics_wide", dict(NTasks=3, N=3, MaxOps=7, MaxRec=0, MaxT=0, MTypes=["Cat"], Kinds=["s"], Bug="none")),
-                     ("metrics", dict(NTasks=2, N=3, MaxOps=6, MaxRec=0, MaxT=0, MTypes=["Cat"], Kinds=["s", "a"], Bug="none"))):
+    for nm, conf in (("metrics_wide", dict(NTasks=3, N=3, MaxOps=7, MaxRec=0, MaxT=0, MTypes=["Cat"], Kinds=["s"], Prep=False, Bug="none")),
+                     ("metrics", dict(NTasks=2, N=3, MaxOps=6, MaxRec=0, MaxT=0, MTypes=["Cat"], Kinds=["s", "a"], Prep=False, Bug="none"))):
         leg_r(rep, work, "Metrics", f"{nm}_{tier}", cfg_text(conf, invariants=minv), lambda: MetricsDriver(["Cat"]),
               internal=["RunCb", "Finish"], world=True)
     rep.assumptions += [
